@@ -51,7 +51,9 @@ type Sched struct {
 	// a non-entity nested fetch whose fetch path selects no item
 	Ghost []int `json:"ghost"`
 	// Terr: the request whose data source fails with a transport error (0 = none)
-	Terr  int           `json:"terr"`
+	Terr int `json:"terr"`
+	// Kinds: entity flavour (entity.go): per request "S" root SingleFetch, "E" EntityFetch, "B" BatchEntityFetch; deps is a forest
+	Kinds []string      `json:"kinds"`
 	Arena bool          `json:"arena"`
 	Init  []int         `json:"init"`
 	Steps []ftgate.Step `json:"steps"`
@@ -97,17 +99,19 @@ func answer(f int, input any, fail bool) []byte {
 var errTransport = errors.New("verif: injected transport error")
 
 type gatedDS struct {
-	gate  *ftgate.Gate
-	terr  int
-	fail  map[int]bool
-	mu    *sync.Mutex
-	calls map[int]int
+	parent map[int]int // entity flavour: the request whose object(s) a request reads
+	gate   *ftgate.Gate
+	terr   int
+	fail   map[int]bool
+	mu     *sync.Mutex
+	calls  map[int]int
 }
 
 func (d gatedDS) Load(ctx context.Context, headers http.Header, input []byte) ([]byte, error) {
 	var in struct {
-		F  int                        `json:"f"`
-		In map[string]json.RawMessage `json:"in"`
+		F   int                        `json:"f"`
+		Ent bool                       `json:"ent"`
+		In  map[string]json.RawMessage `json:"in"`
 	}
 	var generic any
 	if err := json.Unmarshal(input, &in); err != nil {
@@ -126,6 +130,14 @@ func (d gatedDS) Load(ctx context.Context, headers http.Header, input []byte) ([
 	d.mu.Lock()
 	d.calls[in.F]++
 	d.mu.Unlock()
+	if in.Ent {
+		out, sawParent := entAnswer(in.F, input, d.fail[in.F])
+		if sawParent && d.parent[in.F] != 0 {
+			saw = []int{d.parent[in.F]}
+		}
+		d.gate.Arrive("ds.load", in.F, 0, saw)
+		return out, nil
+	}
 	d.gate.Arrive("ds.load", in.F, 0, saw)
 	if in.F == d.terr {
 		return nil, errTransport
@@ -176,10 +188,13 @@ func buildFetch(ds resolve.DataSource, f int, deps []int) *resolve.SingleFetch {
 	}
 }
 
-func buildTree(n *Node, ds resolve.DataSource, deps [][]int, ghost map[int]bool, ids *[]int) *resolve.FetchTreeNode {
+func buildTree(n *Node, ds resolve.DataSource, deps [][]int, ghost map[int]bool, ent *entPlan, ids *[]int) *resolve.FetchTreeNode {
 	switch n.K {
 	case "F":
 		*ids = append(*ids, n.ID)
+		if ent != nil {
+			return ent.buildFetch(ds, n.ID, deps[n.ID-1])
+		}
 		if ghost[n.ID] {
 			return resolve.Single(buildFetch(ds, n.ID, deps[n.ID-1]), resolve.ObjectPath(fmt.Sprintf("ghost%d", n.ID)), resolve.ObjectPath("x"))
 		}
@@ -187,7 +202,7 @@ func buildTree(n *Node, ds resolve.DataSource, deps [][]int, ghost map[int]bool,
 	case "S", "P":
 		ch := make([]*resolve.FetchTreeNode, 0, len(n.C))
 		for _, c := range n.C {
-			ch = append(ch, buildTree(c, ds, deps, ghost, ids))
+			ch = append(ch, buildTree(c, ds, deps, ghost, ent, ids))
 		}
 		if n.K == "S" {
 			return resolve.Sequence(ch...)
@@ -203,9 +218,16 @@ func buildResponse(s Sched, ds resolve.DataSource) (*resolve.GraphQLResponse, []
 	for _, f := range s.Ghost {
 		ghost[f] = true
 	}
-	tree := buildTree(s.Tree, ds, s.Deps, ghost, &ids)
+	var ent *entPlan
+	if len(s.Kinds) > 0 {
+		ent = newEntPlan(s)
+	}
+	tree := buildTree(s.Tree, ds, s.Deps, ghost, ent, &ids)
 	sorted := append([]int(nil), ids...)
 	sort.Ints(sorted)
+	if ent != nil {
+		return &resolve.GraphQLResponse{Info: &resolve.GraphQLResponseInfo{OperationType: ast.OperationTypeQuery}, Fetches: tree, Data: ent.dataNode()}, sorted
+	}
 	var fields []*resolve.Field
 	for _, f := range sorted {
 		fields = append(fields, &resolve.Field{
@@ -292,13 +314,19 @@ func runSchedule(s Sched, evw *bufio.Writer) Result {
 	}
 	mu := &sync.Mutex{}
 	calls := map[int]int{}
-	ds := gatedDS{gate: gate, terr: s.Terr, fail: fail, mu: mu, calls: calls}
+	ds := gatedDS{gate: gate, terr: s.Terr, fail: fail, mu: mu, calls: calls, parent: map[int]int{}}
+	if len(s.Kinds) > 0 {
+		ds.parent = newEntPlan(s).parent
+	}
 	resp, ids := buildResponse(s, ds)
 	ghost := map[int]bool{}
 	for _, f := range s.Ghost {
 		ghost[f] = true
 	}
 	res.ExpectData = expected(ids, s.Deps, fail, ghost, s.Terr)
+	if len(s.Kinds) > 0 {
+		res.ExpectData = newEntPlan(s).expected()
+	}
 
 	resolve.VerifHook = func(point string, a, b uint64) {
 		if ftgate.KnownPoint(point) { // hooks of other checks share resolve.VerifHook
